@@ -299,3 +299,4 @@ BOUNDS = dict(
     "Transpose, Tridiagonal, generic); dense general n <= 3 through the pivoted-LU stand-in (every pivot order is a path); dense Hermitian positive "
     "definite L L^H n <= 3 through Cholesky; Lanczos() / Arnoldi() with Exact() trace on block operators n in {2, 3}, max_iters n .. n + 2, spectra below one, "
     "above one and mixed", algorithms="default (Auto), LU(), Cholesky(), Lanczos(), Arnoldi(), logdet", values="all payloads symbolic")
+BOUNDS["added"] = 'operators declared PSD sent through LU() (Dense, Sum, rule-less, Kronecker)'
